@@ -266,6 +266,129 @@ class MatchVal:
         self.m = m
 
 
+class NT(tuple):
+    """A namedtuple instance."""
+    def __new__(cls, name, fields, values):
+        o = super().__new__(cls, values)
+        o.nt_name, o.nt_fields = name, tuple(fields)
+        return o
+
+
+class NTClass:
+    def __init__(self, name, fields, defaults=None):
+        self.name, self.fields, self.defaults = name, tuple(fields), dict(defaults or {})
+
+    def __repr__(self):
+        return f"<namedtuple {self.name}{self.fields}>"
+
+
+class Repeat:
+    """itertools.repeat(x) without a count: infinite; only zip() and islice() may consume it."""
+    def __init__(self, value):
+        self.value = value
+
+
+class OpaqueStr(str):
+    """A string whose text the interpreter does not know (a formatted value with
+    a non-concrete part, str() of an abstract value).  It can be stored, passed
+    on, concatenated and formatted into other strings; *looking at it* - in the
+    interpreted program or in a checker - is an Unsupported operation, never an
+    answer computed from the placeholder text."""
+    _n = 0
+
+    def __new__(cls, why="text"):
+        OpaqueStr._n += 1
+        return super().__new__(cls, f"<non-concrete {why} #{OpaqueStr._n}>")
+
+    def _no(self, *a, **k):
+        raise Unsupported(f"the text of a {str.__str__(self)[1:-1].rsplit(' ', 1)[0]} is inspected")
+
+    __len__ = __iter__ = __getitem__ = __contains__ = __lt__ = __le__ = __gt__ = __ge__ = _no
+    for _m in ("startswith", "endswith", "find", "rfind", "index", "rindex", "count", "split", "rsplit",
+               "partition", "rpartition", "splitlines", "isdigit", "isalpha", "isalnum", "isspace",
+               "isupper", "islower", "isascii", "isidentifier", "isnumeric", "isdecimal", "istitle",
+               "isprintable", "removeprefix", "removesuffix", "translate", "expandtabs", "zfill",
+               "ljust", "rjust", "center"):
+        locals()[_m] = _no
+    del _m
+
+    def __eq__(self, other):
+        if other is self:
+            return True
+        if not isinstance(other, str):
+            return False
+        self._no()
+
+    def __ne__(self, other):
+        return not self.__eq__(other)
+
+    __hash__ = str.__hash__
+
+    def __str__(self):
+        return self
+
+    def _same(self, *a, **k):
+        return OpaqueStr("text")
+
+    __add__ = __radd__ = __mod__ = __rmod__ = __mul__ = _same
+    upper = lower = strip = lstrip = rstrip = replace = format = title = capitalize = casefold = \
+        swapcase = join = _same
+
+    def encode(self, *a, **k):
+        return OpaqueBytes("text")
+
+
+class OpaqueBytes(bytes):
+    _n = 0
+
+    def __new__(cls, why="text"):
+        OpaqueBytes._n += 1
+        return super().__new__(cls, f"<non-concrete {why} #{OpaqueBytes._n}>".encode())
+
+    def _no(self, *a, **k):
+        raise Unsupported("the content of a non-concrete byte string is inspected")
+
+    __len__ = __iter__ = __getitem__ = __contains__ = __lt__ = __le__ = __gt__ = __ge__ = _no
+    for _m in ("startswith", "endswith", "find", "rfind", "index", "rindex", "count", "split", "rsplit",
+               "partition", "rpartition", "splitlines", "isdigit", "isalpha", "translate"):
+        locals()[_m] = _no
+    del _m
+
+    def __eq__(self, other):
+        if other is self:
+            return True
+        if not isinstance(other, bytes):
+            return False
+        self._no()
+
+    def __ne__(self, other):
+        return not self.__eq__(other)
+
+    __hash__ = bytes.__hash__
+
+    def _same(self, *a, **k):
+        return OpaqueBytes("text")
+
+    __add__ = __radd__ = __mod__ = __rmod__ = __mul__ = _same
+    upper = lower = strip = lstrip = rstrip = replace = join = _same
+
+    def decode(self, *a, **k):
+        return OpaqueStr("text")
+
+
+def is_opaque(x):
+    return isinstance(x, (OpaqueStr, OpaqueBytes))
+
+
+class Count:
+    """itertools.count(start, step): infinite; only zip() and islice() may consume it."""
+    def __init__(self, start=0, step=1):
+        self.start, self.step = start, step
+
+    def take(self, n):
+        return [self.start + i * self.step for i in range(n)]
+
+
 class FromKeys(list):
     """dict.fromkeys(iterable): iterating / list() gives the distinct keys in first-seen order."""
 
@@ -392,11 +515,14 @@ class Interp:
         n["range"] = Native("range", self._range)
         n["int"] = Native("int", self._int)
         n["str"] = Native("str", self._str_ctor)
-        n["repr"] = Native("repr", lambda i, a, k: "<repr>")
+        n["repr"] = Native("repr", lambda i, a, k: OpaqueStr("repr() text"))
         n["any"] = Native("any", lambda i, a, k: any(self.truth(x) for x in self._as_list(a[0])))
         n["all"] = Native("all", lambda i, a, k: all(self.truth(x) for x in self._as_list(a[0])))
         n["sorted"] = Native("sorted", self._sorted)
-        n["zip"] = Native("zip", lambda i, a, k: [tuple(t) for t in zip(*[self._as_list(x) for x in a])])
+        n["zip"] = Native("zip", self._zip)
+        n["slice"] = Native("slice", lambda i, a, k: slice(*[None if x is None else self._concrete_int(x)
+                                                             for x in a]))
+        n["next"] = Native("next", self._next)
         n["reversed"] = Native("reversed", lambda i, a, k: list(reversed(self._as_list(a[0]))))
         n["bool"] = Native("bool", lambda i, a, k: self.truth(a[0]) if a else False)
         n["map"] = Native("map", lambda i, a, k: [self.call(a[0], list(t), {})
@@ -460,6 +586,8 @@ class Interp:
     def _int(self, i, a, k):
         if not a:
             return 0
+        if is_opaque(a[0]) or (isinstance(a[0], Obj) and is_opaque(a[0].strval)):
+            raise Unsupported("int() of a non-concrete string")
         if len(a) > 1 or k:
             base = a[1] if len(a) > 1 else k.get("base")
             x = a[0].strval if isinstance(a[0], Obj) and a[0].strval is not None else a[0]
@@ -472,6 +600,11 @@ class Interp:
         x = a[0]
         if isinstance(x, (int, bool)):
             return int(x)
+        if isinstance(x, float):
+            try:
+                return int(x)
+            except (ValueError, OverflowError) as e:
+                raise AbsRaise(type(e).__name__, str(e))
         if isinstance(x, str):
             try:
                 return int(x)
@@ -502,7 +635,7 @@ class Interp:
             return str(x.attrs["floatval"])
         if isinstance(x, (int, float, bytes, bool)) or x is None:
             return str(x)
-        return "<str>"
+        return OpaqueStr("str() text")
 
     def _type(self, i, a, k):
         x = a[0]
@@ -552,6 +685,8 @@ class Interp:
             return {"bytes", "object"}
         if isinstance(x, list):
             return {"list", "object"}
+        if isinstance(x, NT):
+            return {"tuple", "object", "nt:" + x.nt_name}
         if isinstance(x, tuple):
             return {"tuple", "object"}
         if isinstance(x, dict):
@@ -625,6 +760,8 @@ class Interp:
         """Text of one formatted value, or None when it is not concrete."""
         if isinstance(x, Obj) and x.strval is not None:
             x = x.strval
+        if is_opaque(x):
+            return None
         if isinstance(x, (str, int, float, bytes, bool)) or x is None:
             try:
                 if conversion == ord("r"):
@@ -672,11 +809,33 @@ class Interp:
 
     def _sorted(self, i, a, k):
         xs = self._as_list(a[0])
-        key = k.get("key")
-        rev = bool(k.get("reverse", False))
-        if key is None:
-            return sorted(xs, reverse=rev)
-        return sorted(xs, key=lambda x: self.call(key, [x], {}), reverse=rev)
+        if set(k) - {"key", "reverse"}:
+            raise Unsupported(f"sorted keywords {sorted(k)}")
+        return self._sort_list(list(xs), k.get("key"), self.truth(k.get("reverse", False)))
+
+    def _plain(self, x):
+        if isinstance(x, (tuple, list)):
+            return all(self._plain(y) for y in x)
+        return isinstance(x, (str, int, float, bytes)) and not is_opaque(x)
+
+    def _sort_list(self, xs, key, rev):
+        """Stable sort by Python's rules; abstract values are ordered by compare()."""
+        import functools
+        keys = [x if key is None else self.call(key, [x], {}) for x in xs]
+        if all(self._plain(y) for y in keys):
+            try:
+                order = sorted(range(len(xs)), key=lambda j: keys[j], reverse=rev)
+            except TypeError as e:
+                raise AbsRaise("TypeError", str(e))
+        else:
+            def cmp(j1, j2):
+                if self.compare(ast.Lt(), keys[j1], keys[j2]):
+                    return -1
+                if self.compare(ast.Lt(), keys[j2], keys[j1]):
+                    return 1
+                return 0
+            order = sorted(range(len(xs)), key=functools.cmp_to_key(cmp), reverse=rev)
+        return [xs[j] for j in order]
 
     def _as_list(self, x):
         if isinstance(x, (list, tuple)):
@@ -748,6 +907,16 @@ class Interp:
             x, y = a, b
         elif isinstance(a, str) and isinstance(b, str):
             x, y = a, b
+        elif isinstance(a, bytes) and isinstance(b, bytes):
+            x, y = a, b
+        elif type(a) is type(b) and isinstance(a, (tuple, list)):
+            # lexicographic: first differing position decides
+            for p, q in zip(a, b):
+                if not self._equal(p, q):
+                    return self.compare(op, p, q)
+            x, y = len(a), len(b)
+        elif isinstance(a, TD) and isinstance(b, TD) and a.secs is not None and b.secs is not None:
+            x, y = a.secs, b.secs
         elif isinstance(a, TD) and isinstance(b, TD):
             self.ops_seen.add("timedelta-order")
             def lt(x, y):
@@ -984,6 +1153,16 @@ class Interp:
             return self._str_method(o, name)
         if isinstance(o, dict):
             return self._dict_method(o, name)
+        if isinstance(o, NT):
+            if name in o.nt_fields:
+                return o[o.nt_fields.index(name)]
+            if name == "_fields":
+                return o.nt_fields
+            if name == "_asdict":
+                return Native("_asdict", lambda i, a, k, o=o: dict(zip(o.nt_fields, o)))
+            if name == "_replace":
+                return Native("_replace", lambda i, a, k, o=o: NT(
+                    o.nt_name, o.nt_fields, [k.get(f, v) for f, v in zip(o.nt_fields, o)]))
         if isinstance(o, tuple):
             if name == "index":
                 return Native("index", lambda i, a, k, o=o: o.index(a[0]))
@@ -1071,15 +1250,7 @@ class Interp:
             def sort(i, a, k):
                 if a or set(k) - {"key", "reverse"}:
                     raise Unsupported(f"list.sort({a!r}, {sorted(k)})")
-                key = k.get("key")
-                rev = self.truth(k.get("reverse", False))
-                try:
-                    if key is None:
-                        o.sort(reverse=rev)
-                    else:
-                        o.sort(key=lambda x: self.call(key, [x], {}), reverse=rev)
-                except TypeError as e:
-                    raise AbsRaise("TypeError", str(e))
+                o[:] = self._sort_list(list(o), k.get("key"), self.truth(k.get("reverse", False)))
             return Native("sort", sort)
         if name == "reverse":
             return Native("reverse", lambda i, a, k: o.reverse())
@@ -1102,7 +1273,26 @@ class Interp:
             raise AbsRaise("AttributeError", f"'list' object has no attribute {name!r}")
         raise Unsupported(f"list.{name}")
 
+    _STR_TRANSFORM = {"join", "replace", "format", "lstrip", "rstrip", "strip", "ljust", "rjust", "center"}
+
     def _str_method(self, o, name):
+        nat = self._str_method0(o, name)
+        if is_opaque(o) or not isinstance(nat, Native):
+            return nat
+        inner = nat.fn
+
+        def guarded(i, a, k):
+            def opq(x):
+                return is_opaque(x) or (isinstance(x, Obj) and is_opaque(x.strval)) or \
+                    (isinstance(x, (list, tuple)) and any(opq(y) for y in x))
+            if any(opq(x) for x in a) or any(opq(x) for x in k.values()):
+                if name in Interp._STR_TRANSFORM:
+                    return OpaqueBytes("text") if isinstance(o, bytes) else OpaqueStr("text")
+                raise Unsupported(f"str.{name} with a non-concrete string argument")
+            return inner(i, a, k)
+        return Native(nat.name, guarded)
+
+    def _str_method0(self, o, name):
         if name == "decode" and isinstance(o, bytes):
             def dec(i, a, k):
                 try:
@@ -1134,10 +1324,10 @@ class Interp:
                         elif fld in k:
                             val = k[fld]
                         else:
-                            return "<formatted>"
+                            return OpaqueStr("formatted text")
                         got = self.format_value(val, spec or "", ord(conv) if conv else -1)
                         if got is None:
-                            return "<formatted>"
+                            return OpaqueStr("formatted text")
                         out.append(got)
                 except (IndexError, KeyError, ValueError) as e:
                     raise AbsRaise(type(e).__name__, str(e))
@@ -1152,7 +1342,7 @@ class Interp:
                 if any(isinstance(x, (str, bytes, int, type(None))) and not isinstance(x, type(o))
                        for x in xs):
                     raise AbsRaise("TypeError", "sequence item: expected str instance")
-                return "<joined>"
+                return OpaqueStr("joined text")
             return Native("join", join)
         if name == "encode":
             def enc(i, a, k):
@@ -1330,6 +1520,8 @@ class Interp:
         """Concrete str/bytes of a value handed to a regex."""
         if isinstance(x, Obj) and x.strval is not None:
             return x.strval
+        if is_opaque(x):
+            raise Unsupported("regex applied to a non-concrete string")
         if isinstance(x, (str, bytes)):
             return x
         raise Unsupported(f"regex applied to {x!r}")
@@ -1404,7 +1596,152 @@ class Interp:
             return n
         raise Unsupported(f"copy of {x!r}")
 
+    def _namedtuple(self, i, a, k):
+        name = self._str(a[0])
+        fields = a[1] if len(a) > 1 else k.get("field_names")
+        if isinstance(fields, str):
+            fields = fields.replace(",", " ").split()
+        fields = [self._str(x) for x in self._as_list(fields)]
+        d = k.get("defaults")
+        defaults = {}
+        if d is not None:
+            d = self._as_list(d)
+            defaults = dict(zip(fields[len(fields) - len(d):], d))
+        return NTClass(name, fields, defaults)
+
+    def _make_nt(self, ntc, args, kwargs):
+        vals = list(args)
+        for f in ntc.fields[len(vals):]:
+            if f in kwargs:
+                vals.append(kwargs.pop(f))
+            elif f in ntc.defaults:
+                vals.append(ntc.defaults[f])
+            else:
+                raise AbsRaise("TypeError", f"{ntc.name}() missing argument {f!r}")
+        if kwargs or len(vals) != len(ntc.fields):
+            raise AbsRaise("TypeError", f"{ntc.name}() got unexpected arguments")
+        return NT(ntc.name, ntc.fields, vals)
+
+    def _zip(self, i, a, k):
+        cols = []
+        finite = [self._as_list(x) for x in a if not isinstance(x, (Repeat, Count))]
+        if not finite:
+            raise Unsupported("zip() of infinite iterators only")
+        n = min(len(c) for c in finite)
+        for x in a:
+            cols.append([x.value] * n if isinstance(x, Repeat) else x.take(n) if isinstance(x, Count)
+                        else self._as_list(x)[:n])
+        return [tuple(t) for t in zip(*cols)]
+
+    def _next(self, i, a, k):
+        src = a[0]
+        seen = self.__dict__.setdefault("_next_seen", [])
+        if isinstance(src, list):
+            if any(x is src for x in seen):
+                raise Unsupported("next() called twice on the same iterator")
+            seen.append(src)         # keeps the object alive: identity stays meaningful
+        xs = self._as_list(src)
+        if xs:
+            return xs[0]
+        if len(a) > 1:
+            return a[1]
+        raise AbsRaise("StopIteration", "")
+
     def _native_obj_attr(self, o, name):
+        if o.name == "itertools":
+            if name == "chain":
+                return NativeObj("itertools.chain")
+            if name == "repeat":
+                return Native("repeat", lambda i, a, k: Repeat(a[0]) if len(a) == 1 and not k else
+                              [a[0]] * self._concrete_int(a[1] if len(a) > 1 else k["times"]))
+            if name == "count":
+                return Native("count", lambda i, a, k: Count(
+                    self._concrete_int(a[0] if a else k.get("start", 0)),
+                    self._concrete_int(a[1] if len(a) > 1 else k.get("step", 1))))
+            if name == "filterfalse":
+                return Native("filterfalse", lambda i, a, k: [
+                    x for x in self._as_list(a[1])
+                    if not self.truth(x if a[0] is None else self.call(a[0], [x], {}))])
+            if name == "islice":
+                def islice(i, a, k):
+                    nums = [None if x is None else self._concrete_int(x) for x in a[1:]]
+                    if isinstance(a[0], Repeat):
+                        if len(nums) != 1 or nums[0] is None:
+                            raise Unsupported("islice of an infinite iterator without a stop")
+                        return [a[0].value] * nums[0]
+                    if isinstance(a[0], Count):
+                        if len(nums) != 1 or nums[0] is None:
+                            raise Unsupported("islice of an infinite iterator without a stop")
+                        return a[0].take(nums[0])
+                    import itertools as _it
+                    return list(_it.islice(self._as_list(a[0]), *nums))
+                return Native("islice", islice)
+            if name in ("zip_longest",):
+                import itertools as _it
+                return Native(name, lambda i, a, k: [tuple(t) for t in _it.zip_longest(
+                    *[self._as_list(x) for x in a], **k)])
+            if name == "starmap":
+                return Native(name, lambda i, a, k: [self.call(a[0], list(self._as_list(t)), {})
+                                                   for t in self._as_list(a[1])])
+            if name == "takewhile":
+                def tw(i, a, k):
+                    out = []
+                    for x in self._as_list(a[1]):
+                        if not self.truth(self.call(a[0], [x], {})):
+                            break
+                        out.append(x)
+                    return out
+                return Native(name, tw)
+            if name == "accumulate":
+                def acc(i, a, k):
+                    xs = self._as_list(a[0])
+                    f = a[1] if len(a) > 1 else k.get("func")
+                    out = []
+                    for x in xs:
+                        out.append(x if not out else (self.call(f, [out[-1], x], {}) if f is not None
+                                                      else self.binop(ast.Add(), out[-1], x)))
+                    return out
+                return Native(name, acc)
+            raise Unsupported(f"itertools.{name}")
+        if o.name == "itertools.chain":
+            if name == "from_iterable":
+                return Native("chain.from_iterable", lambda i, a, k: [
+                    y for x in self._as_list(a[0]) for y in self._as_list(x)])
+            raise Unsupported(f"itertools.chain.{name}")
+        if o.name == "functools":
+            if name == "reduce":
+                def red(i, a, k):
+                    xs = self._as_list(a[1])
+                    if len(a) > 2:
+                        acc_ = a[2]
+                    elif xs:
+                        acc_, xs = xs[0], xs[1:]
+                    else:
+                        raise AbsRaise("TypeError", "reduce() of empty iterable with no initial value")
+                    for x in xs:
+                        acc_ = self.call(a[0], [acc_, x], {})
+                    return acc_
+                return Native("reduce", red)
+            if name == "partial":
+                return Native("partial", lambda i, a, k: Native(
+                    "partial-call", lambda i2, a2, k2, f=a[0], pa=a[1:], pk=k: self.call(
+                        f, list(pa) + list(a2), {**pk, **k2})))
+            raise Unsupported(f"functools.{name}")
+        if o.name == "operator":
+            if name == "itemgetter":
+                return Native("itemgetter", lambda i, a, k: Native(
+                    "itemgetter-call", lambda i2, a2, k2, keys=a: self.getitem(a2[0], keys[0])
+                    if len(keys) == 1 else tuple(self.getitem(a2[0], kk) for kk in keys)))
+            if name == "attrgetter":
+                return Native("attrgetter", lambda i, a, k: Native(
+                    "attrgetter-call", lambda i2, a2, k2, nm=a[0]: self.getattr(a2[0], nm)))
+            raise Unsupported(f"operator.{name}")
+        if o.name == "collections":
+            if name == "namedtuple":
+                return Native("namedtuple", self._namedtuple)
+            if name == "OrderedDict":
+                return TypeTok("dict")
+            raise Unsupported(f"collections.{name}")
         if o.name == "copy":
             if name in ("copy", "deepcopy"):
                 return Native("copy." + name, lambda i, a, k, deep=(name == "deepcopy"):
@@ -1674,15 +2011,28 @@ class Interp:
                            ("subday" if a.mag == "subday" and False else None) or a.mag))
             if isinstance(a, (int, float)) and isinstance(b, (int, float)):
                 return a * b
-        if isinstance(op, ast.Mod) and isinstance(a, str):
+        if isinstance(op, ast.Mod) and isinstance(a, bytes):
             args = b if isinstance(b, tuple) else (b,)
             args = tuple(x.strval if isinstance(x, Obj) and x.strval is not None else x for x in args)
-            if all(isinstance(x, (str, int, float, bytes)) for x in args) and "<" not in a[:1]:
+            if is_opaque(a) or any(is_opaque(x) for x in args):
+                return OpaqueBytes("formatted text")
+            if all(isinstance(x, (bytes, int, float)) for x in args):
                 try:
                     return a % args
                 except (TypeError, ValueError) as e:
                     raise AbsRaise(type(e).__name__, str(e))
-            return "<formatted>"
+            raise Unsupported(f"bytes %-formatting with {args!r}")
+        if isinstance(op, ast.Mod) and isinstance(a, str):
+            args = b if isinstance(b, tuple) else (b,)
+            args = tuple(x.strval if isinstance(x, Obj) and x.strval is not None else x for x in args)
+            if is_opaque(a) or any(is_opaque(x) for x in args):
+                return OpaqueStr("formatted text")
+            if all(isinstance(x, (str, int, float, bytes)) for x in args):
+                try:
+                    return a % args
+                except (TypeError, ValueError) as e:
+                    raise AbsRaise(type(e).__name__, str(e))
+            return OpaqueStr("formatted text")
         # concrete Python scalars and strings: Python's own semantics
         ua = a.strval if isinstance(a, Obj) and a.strval is not None else a
         ub = b.strval if isinstance(b, Obj) and b.strval is not None else b
@@ -1738,6 +2088,10 @@ class Interp:
             return self.instantiate(f.ci, list(args), dict(kwargs))
         if isinstance(f, TypeTok):
             return self._call_type(f, list(args), dict(kwargs))
+        if isinstance(f, NTClass):
+            return self._make_nt(f, list(args), dict(kwargs))
+        if isinstance(f, NativeObj) and f.name == "itertools.chain":
+            return [y for x in args for y in self._as_list(x)]
         if isinstance(f, PropertyVal):
             raise AbsRaise("TypeError", "'property' object is not callable")
         raise Unsupported(f"call of {f!r}")
@@ -1835,6 +2189,16 @@ class Interp:
         raise Unsupported(f"call of type {t.name}")
 
     def instantiate(self, ci, args, kwargs):
+        # class X(NamedTuple): a: T; b: T = default
+        if any(str(b).split(".")[-1] == "NamedTuple" for b in self.model.mro(ci)
+               if not isinstance(b, ClassInfo)):
+            fields, defaults = [], {}
+            for st in ci.node.body:
+                if isinstance(st, ast.AnnAssign) and isinstance(st.target, ast.Name):
+                    fields.append(st.target.id)
+                    if st.value is not None:
+                        defaults[st.target.id] = self.eval(st.value, Env(self, ci.module, {}, cls_scope=ci))
+            return self._make_nt(NTClass(ci.name, fields, defaults), list(args), dict(kwargs))
         # exceptions defined in the repo
         if any(x in BUILTIN_EXC for x in self.exc_bases(ci.name)[1:]) and \
                 not self.model.is_subclass(ci, "caselessdict.CaselessDict"):
@@ -2157,6 +2521,20 @@ class Interp:
             env.locals[t.id] = v
         elif isinstance(t, (ast.Tuple, ast.List)):
             vals = self._as_list(v) if not (isinstance(v, tuple) and v and v[0] == "namedtuple") else None
+            stars = [i for i, tt in enumerate(t.elts) if isinstance(tt, ast.Starred)]
+            if stars:
+                if len(stars) > 1 or vals is None:
+                    raise Unsupported("starred assignment target")
+                i = stars[0]
+                after = len(t.elts) - i - 1
+                if len(vals) < len(t.elts) - 1:
+                    raise AbsRaise("ValueError", "not enough values to unpack")
+                for tt, vv in zip(t.elts[:i], vals[:i]):
+                    self.assign(tt, vv, env)
+                self.assign(t.elts[i].value, list(vals[i:len(vals) - after]), env)
+                for tt, vv in zip(t.elts[i + 1:], vals[len(vals) - after:] if after else []):
+                    self.assign(tt, vv, env)
+                return
             if vals is None or len(vals) != len(t.elts):
                 raise AbsRaise("ValueError", "unpack")
             for tt, vv in zip(t.elts, vals):
@@ -2255,7 +2633,7 @@ class Interp:
                         parts.append(got)
                 elif isinstance(v, ast.Constant):
                     parts.append(str(v.value))
-            return "".join(parts) if concrete else "<fstring>"
+            return "".join(parts) if concrete else OpaqueStr("formatted text")
         if isinstance(e, (ast.ListComp, ast.GeneratorExp, ast.SetComp)):
             out = []
             self._comp(e.generators, 0, env, lambda en: out.append(self.eval(e.elt, en)))
@@ -2273,6 +2651,14 @@ class Interp:
         if isinstance(e, ast.YieldFrom):
             env.yields.extend(self._as_list(self.eval(e.value, env)))
             return None
+        if isinstance(e, ast.NamedExpr):
+            v = self.eval(e.value, env)
+            # the target binds in the enclosing function scope
+            scope = env
+            while scope.parent is not None and getattr(scope, "comp_scope", False):
+                scope = scope.parent
+            self.assign(e.target, v, scope)
+            return v
         if isinstance(e, ast.Starred):
             raise Unsupported("starred expression")
         raise Unsupported(f"expression {type(e).__name__}")
@@ -2441,6 +2827,15 @@ class Interp:
                     return NativeObj("re")
                 if r[1] == "copy":
                     return NativeObj("copy")
+                if r[1] in ("collections.namedtuple",):
+                    return Native("namedtuple", self._namedtuple)
+                if r[1] in ("itertools", "functools", "operator", "collections"):
+                    return NativeObj(r[1])
+                if r[1].startswith(("itertools.", "functools.", "operator.")):
+                    mod, _, attr = r[1].partition(".")
+                    return self._native_obj_attr(NativeObj(mod), attr)
+                if r[1] in ("typing.NamedTuple",):
+                    return TypeTok("NamedTuple")
                 if r[1] in ("copy.copy", "copy.deepcopy"):
                     return Native(r[1], lambda i, a, k, deep=r[1].endswith("deepcopy"):
                                   self._copy(a[0], deep, {}))
